@@ -594,8 +594,10 @@ that hide set.  A derivation exists exactly for the inputs accepted by the decis
 (`tame_class_is_decided`), in particular for every input over a table of object-like macros (`object_like_refines_spec`); the
 side conditions of `Tame` exclude the deviation classes `differs_*` below, and only those were found necessary:
 replacement lists without `##` (`WFMacro.noConcat`; `paste_*` treat `##`), what an argument expands to names no enabled
-macro (`OnlyDisabled`), no invocation spans the end of an expanded replacement list (`NoFire`), a function-like name
-that is not invoked is not followed by a line end and `(` (`Kept`). -/
+macro (`OnlyDisabled`) -- or nothing is expanded in the argument at all (`AllKept`: the bare name of a function-like
+macro that the replacement list goes on to invoke, `APPLY(NEG, a)`, `LIST(DECL)`: `agrees_on_higher_order_invocation`;
+its token carries exactly the hide set of the invocation, `Lemmas.MacroTameSpec.Exact`) --, no invocation spans the end
+of an expanded replacement list (`NoFire`), a function-like name that is not invoked is not followed by `(` (`Kept`). -/
 theorem expand_refines_spec (defs : List Macro) (toks out : List PTok) (hwf : ∀ m ∈ defs, WFMacro m)
     (h : Tame (allEnabled defs) toks out) :
     applyMacros defs toks = .ok out ∧
